@@ -362,8 +362,8 @@ func run(p props.Prop) int {
 			fmt.Printf("KNOWN-FINDING: property=%s %s (sig %q, %d cases this run)\n", p.ID(), f.What, f.Sig, knownHit[f.Sig])
 		}
 	}
-	writeEvidence(p, a, wall, len(sigs), knownHit)
-	fmt.Printf("simcheck: %s %s: evaluations=%d distinct=%d violations(sigs)=%d unknown=%d wall=%.1fs\n", p.ID(), *fTier, a.evals, len(a.keys), len(sigs), unknown, wall)
+	writeEvidence(p, a, wall, len(sigs), unknown, knownHit)
+	fmt.Printf("simcheck: %s %s: evaluations=%d distinct=%d failing-signatures=%d unlisted=%d wall=%.1fs\n", p.ID(), *fTier, a.evals, len(a.keys), len(sigs), unknown, wall)
 	return exit
 }
 
@@ -719,7 +719,7 @@ func shrinkFile(p props.Prop, path string) int {
 // ---------------------------------------------------------------------------
 // evidence
 
-func writeEvidence(p props.Prop, a *agg, wall float64, nsig int, knownHit map[string]int) {
+func writeEvidence(p props.Prop, a *agg, wall float64, nsig, unlisted int, knownHit map[string]int) {
 	if *fEvidence == "" {
 		return
 	}
@@ -745,23 +745,24 @@ func writeEvidence(p props.Prop, a *agg, wall float64, nsig int, knownHit map[st
 		samples = []interface{}{"(no sample recorded)"}
 	}
 	cov := map[string]interface{}{
-		"evaluations":          a.evals,
-		"distinct_nontrivial":  len(a.keys),
-		"trivial":              a.trivial,
-		"rule":                 p.Rule(),
-		"samples":              samples,
-		"exhaustive":           false,
-		"simulated_seconds":    float64(a.simNs) / 1e9,
-		"scheduler_steps":      a.steps,
-		"distinct_schedules":   len(a.traces),
-		"runs_per_hour":        int(float64(a.evals) / wall * 3600),
-		"fault_and_probe_hits": a.stats,
-		"outcomes_top":         outm,
-		"components_real":      real,
-		"components_stub":      stub,
-		"violation_signatures": nsig,
-		"known_findings_hit":   knownHit,
-		"workers":              runtime.NumCPU(),
+		"evaluations":                 a.evals,
+		"distinct_nontrivial":         len(a.keys),
+		"trivial":                     a.trivial,
+		"rule":                        p.Rule(),
+		"samples":                     samples,
+		"exhaustive":                  false,
+		"simulated_seconds":           float64(a.simNs) / 1e9,
+		"scheduler_steps":             a.steps,
+		"distinct_schedules":          len(a.traces),
+		"runs_per_hour":               int(float64(a.evals) / wall * 3600),
+		"fault_and_probe_hits":        a.stats,
+		"outcomes_top":                outm,
+		"components_real":             real,
+		"components_stub":             stub,
+		"failing_signatures_total":    nsig,
+		"failing_signatures_unlisted": unlisted,
+		"known_findings_hit":          knownHit,
+		"workers":                     runtime.NumCPU(),
 	}
 	ev := map[string]interface{}{
 		"property_id": p.ID(),
@@ -771,7 +772,7 @@ func writeEvidence(p props.Prop, a *agg, wall float64, nsig int, knownHit map[st
 		"coverage":    cov,
 		"assumptions": p.Assumptions(),
 		"wall_s":      wall,
-		"violations":  nsig,
+		"violations":  unlisted, // signatures not listed in known_findings.json (each printed as a VIOLATION line)
 	}
 	b, _ := json.MarshalIndent(ev, "", " ")
 	os.MkdirAll(filepath.Dir(*fEvidence), 0755)
